@@ -10,6 +10,7 @@ import (
 	"fmt"
 	"io"
 	"net"
+	"sync"
 
 	hclog "github.com/hashicorp/go-hclog"
 	"github.com/hashicorp/go-plugin/internal/grpcmux"
@@ -59,6 +60,7 @@ type GRPCServer struct {
 	config      GRPCServerConfig
 	server      *grpc.Server
 	broker      *GRPCBroker
+	brokerLock  sync.Mutex
 	stdioServer *grpcStdioServer
 
 	logger hclog.Logger
@@ -117,6 +119,15 @@ func (s *GRPCServer) Init() error {
 // grpc.Broker if present.
 func (s *GRPCServer) Stop() {
 	s.server.Stop()
+	s.closeBroker()
+}
+
+// closeBroker closes the broker once. Stop can be called concurrently, e.g.
+// by several Shutdown requests when the host calls Kill from more than one
+// goroutine.
+func (s *GRPCServer) closeBroker() {
+	s.brokerLock.Lock()
+	defer s.brokerLock.Unlock()
 
 	if s.broker != nil {
 		s.broker.Close()
@@ -128,11 +139,7 @@ func (s *GRPCServer) Stop() {
 // the underlying grpc.Broker if present.
 func (s *GRPCServer) GracefulStop() {
 	s.server.GracefulStop()
-
-	if s.broker != nil {
-		s.broker.Close()
-		s.broker = nil
-	}
+	s.closeBroker()
 }
 
 // Config is the GRPCServerConfig encoded as JSON then base64.
